@@ -418,9 +418,110 @@ func dynamic(c *vk.Ctx) {
 			c.Violate(fmt.Sprintf("dynamic shape=%s class=%s", sh.name, cl), fmt.Sprintf("%s (%d of %d probes of this shape)", v.desc, v.count, stats["n_probes"]), v.cs)
 		}
 	}
+	sharedPart(c, int64(len(shapes())))
+}
+
+// ---------------------------------------------------------------------------------------------
+// one placeholder variable shared by mocks of different functions, one after another
+
+// SharedCase is the replay artefact of the shared-placeholder histories.
+type SharedCase struct {
+	Sub   string   `json:"sub"`   // "dynamic"
+	Kind  string   `json:"kind"`  // "shared-placeholder"
+	Order []string `json:"order"` // shapes mocked one after another with the same placeholder
+}
+
+//go:noinline
+func growBig(n int) int {
+	var b [256]byte
+	b[n%256] = byte(n)
+	if n == 0 {
+		return int(b[0])
+	}
+	return growBig(n-1) + int(b[n%256])
+}
+
+// runShared: for each shape of the order: mock it with the shared placeholder and a callback
+// that calls the placeholder, call it (on a big stack), reset. Every call must give
+// original+bonus with the callback entered once, and the original after the reset.
+func runShared(order []string) string {
+	shared := zoo.Placeholders["NosplitLeaf"]
+	for step, name := range order {
+		f := zoo.Shapes[name]
+		want := f(5)
+		b := mocker.Create()
+		calls := 0
+		msg, p := vk.Try(func() {
+			b.Func(f).Origin(&shared).Apply(func(a int) int { calls++; return shared(a) + bonus })
+		})
+		if p {
+			vk.Try(func() { b.Reset() })
+			return fmt.Sprintf("shared-placeholder: step %d: mocking %s with the shared placeholder was refused: %s", step, name, vk.Short(msg, 80))
+		}
+		var got int
+		msg, p = vk.Try(func() { growBig(64); got = f(5) })
+		vk.Try(func() { b.Reset() })
+		if p {
+			return fmt.Sprintf("shared-placeholder: step %d: calling %s panicked: %s", step, name, vk.Short(msg, 80))
+		}
+		if got != want+bonus || calls != 1 {
+			return fmt.Sprintf("shared-placeholder: step %d (%v): %s(5) through mock+origin returned %d with %d callback entries, expected %d and 1: the placeholder does not run %s's original", step, order[:step+1], name, got, calls, want+bonus, name)
+		}
+		if g := f(5); g != want {
+			return fmt.Sprintf("shared-placeholder: step %d: after Reset %s(5) = %d, originally %d", step, name, g, want)
+		}
+	}
+	return ""
+}
+
+func sharedPart(c *vk.Ctx, base int64) {
+	names := []string{"NosplitLeaf", "RipLoadFirst", "RipCmpFirst"} // same signature, no stack check (never near the known finding)
+	idx := base
+	var rec func(p []string)
+	n := int64(0)
+	rec = func(p []string) {
+		if len(p) > 0 {
+			mine := c.Mine(idx)
+			idx++
+			if mine {
+				nb, _ := json.Marshal(map[string]interface{}{"__key": fmt.Sprintf("dynamic shared-placeholder order=%v", p), "sub": "dynamic", "kind": "shared-placeholder", "order": p})
+				c.Note(string(nb))
+				f := runShared(p)
+				n++
+				c.Res.Evaluations++
+				c.Res.Traces++
+				c.Res.States++
+				c.Res.Transitions += int64(3 * len(p))
+				c.Res.Nontrivial++
+				if f != "" {
+					c.Violate(fmt.Sprintf("dynamic shared-placeholder order=%v class=wrong-original", p), f, SharedCase{"dynamic", "shared-placeholder", append([]string(nil), p...)})
+				}
+				dynImg.ForceRestore()
+			}
+		}
+		if len(p) == 4 {
+			return
+		}
+		for _, nm := range names {
+			rec(append(p[:len(p):len(p)], nm))
+		}
+	}
+	rec(nil)
+	c.Res.Extra["n_shared_placeholder_histories"] = n
 }
 
 func replayDynamic(c *vk.Ctx) {
+	var sc SharedCase
+	c.LoadReplay(&sc)
+	if sc.Kind == "shared-placeholder" {
+		dynImg = vk.Snapshot()
+		f := runShared(sc.Order)
+		fmt.Printf("replay shared placeholder order=%v\nresult: %s\n", sc.Order, f)
+		if f != "" {
+			c.Violate("replay", f, sc)
+		}
+		return
+	}
 	var cs DynCase
 	c.LoadReplay(&cs)
 	dynImg = vk.Snapshot()
